@@ -228,6 +228,39 @@ fn gen_history(rng: &mut Rng, w: i32, h: i32, len: usize) -> Vec<Unit> {
                 g.push(Op::PopLayer);
                 units.push(Unit::Group(g));
             }
+            7 | 8 if !units.is_empty() => {
+                // the previous call again with one thing changed: whatever an implementation remembers
+                // from the last call (a cached tolerance, shader, path, weight) must not leak into this one
+                let prev = units[units.len() - 1].clone();
+                if let Unit::One(op) = prev {
+                    let o2 = opts(random_mode(rng), random_alpha(rng), rng.chance(0.7));
+                    let varied = match op {
+                        Op::Fill(p, s, o) => match rng.below(3) {
+                            0 => Op::Fill(p, random_source(rng, w, h, 3), o),
+                            1 => Op::Fill(follower(rng, w, h), s, o),
+                            _ => Op::Fill(p, s, o2),
+                        },
+                        Op::Stroke(p, s, st, o) => match rng.below(4) {
+                            0 => Op::Stroke(p, random_source(rng, w, h, 3), st, o),
+                            1 => Op::Stroke(p, s, random_style(rng, 4.), o),
+                            2 => Op::Fill(p, s, o),
+                            _ => Op::Stroke(p, s, st, o2),
+                        },
+                        Op::FillRect(x, y, rw, rh, s, o) => {
+                            if rng.chance(0.5) {
+                                Op::FillRect(x, y, rw, rh, random_source(rng, w, h, 3), o2)
+                            } else {
+                                Op::FillRect(x + 0.5, y, rw, rh, s, o)
+                            }
+                        }
+                        Op::SetTransform(t) => Op::SetTransform(t),
+                        other => other,
+                    };
+                    units.push(Unit::One(varied));
+                } else {
+                    units.push(Unit::One(gen_draw(rng, w, h)));
+                }
+            }
             _ => units.push(Unit::One(gen_draw(rng, w, h))),
         }
     }
